@@ -58,13 +58,17 @@ def len (r : Range) : Int := if r.stop ≤ r.start then 0 else r.stop - r.start
 def contains (r : Range) (x : Int) : Bool := decide (r.start ≤ x) && decide (x < r.stop)
 end Range
 
+/-- `list(range(a, b, c))` for `c ≠ 0` (`[]` for `c = 0`, which Python refuses: see `range3`) -/
+def rangeStep (a b c : Int) : List Int :=
+  if c > 0 then
+    (List.range ((b - a + c - 1) / c).toNat).map (fun (i : Nat) => a + (i : Int) * c)
+  else if c < 0 then
+    (List.range ((a - b + (-c) - 1) / (-c)).toNat).map (fun (i : Nat) => a + (i : Int) * c)
+  else []
+
 /-- `range(a, b, c)` as a list; `c = 0` is a ValueError -/
 def range3 (a b c : Int) : Except Err (List Int) :=
-  if c = 0 then .error .valueError
-  else if c > 0 then
-    .ok ((List.range ((b - a + c - 1) / c).toNat).map (fun (i : Nat) => a + (i : Int) * c))
-  else
-    .ok ((List.range ((a - b + (-c) - 1) / (-c)).toNat).map (fun (i : Nat) => a + (i : Int) * c))
+  if c = 0 then .error .valueError else .ok (rangeStep a b c)
 
 /-! ### sequences -/
 
